@@ -64,6 +64,11 @@ func sceneGenesis(o ReqOpts) {
 	// (its position in the pending-request index relative to the first context's requests is arbitrary)
 	c2, p2 := vf.Addr("consumer2", 20), vf.Addr("provider2", 20)
 	distinct(append(append([]sdk.AccAddress{}, s.Provs...), s.Consumer, s.Owner, c2, p2)...)
+	if vf.Bool("sameProvider") {
+		// the second context's request goes to provider 0 as well: the two pending requests are then ordered by
+		// expiration height and request id in the pending-request index
+		p2 = s.Provs[0]
+	}
 	id2 := vf.Bytes("ctx2", 40)
 	vf.Assume(string(id2) != string(id))
 	fee2 := vf.Amount("fee2")
